@@ -270,6 +270,13 @@ pub fn c13() -> DiffProp {
     );
     seq.enumerated = Some((5, 7, true));
     seq.cfg = cfg_no_range_identity;
+    let mut cls = Fam::custom(
+        "ascii_classification",
+        Box::new(|b: &[u8]| (ascii_class_sweep(idx_of(b) as usize), vec!["ascii_class"])),
+        0, 0, 8,
+    );
+    cls.enumerated = Some((4, 4, true));
+    cls.cfg = cfg_no_range_identity;
     let mut conv = Fam::custom("conversions", Box::new(conversions), 40_000, 400_000, 120);
     conv.cfg = cfg_no_range_identity;
     let mut rnd = Fam::custom("random_ops", Box::new(random_ops), 25_000, 300_000, 160);
@@ -278,8 +285,8 @@ pub fn c13() -> DiffProp {
     gen5.cfg = DiffCfg::default;
     DiffProp {
         id: "C13",
-        families: vec![sweep3, sweep5, bnd, seq, conv, rnd, gen5],
-        rule: "cases: (string_sweep, exhaustive) every string of <=3 characters (quick) / <=4 characters (thorough) over {a, é, €, 😀}, each with every index in [-len-2, len+2] and {0.5, -0.5, NaN, +-inf, +-2^63, 2^53, 1e300}, every slice (begin, end) pair in [-len-1, len+1]^2, find with every needle of <=2 characters from every start, replace, split, starts/ends_with with every needle, len/count_chars/classification/to_bytes/to_code_points/iteration/char_byte_index, byte and code-point round trips, wrong kinds and arities; (string_sweep_long) strings of 4-5 characters with strided slices; (boundary_sweep, exhaustive) the same sweep over every string of <=2 (thorough: <=3) code points from the edges of the UTF-8 encoding lengths and the surrogate gap {U+7F, U+80, U+7FF, U+800, U+E01, U+FFF, U+1000, U+D7FF, U+E000, U+FFFF, U+10000, U+10FFFF}; (seq_sweep, exhaustive) vec and tuple indexing, slicing and element assignment for lengths 0-4 (0-6 thorough); (conversions) to_num texts, from_utf8 with truncated/overlong/surrogate sequences, from_ascii, from_code_points; (random_ops) longer strings; (general) expression programs. Oracle: byte-level string model (harness/src/strmodel.rs, no std string searching) inside the reference interpreter; every result or error class printed and compared. Non-trivial: the subject contains a multi-byte character or a conversion is exercised; distinct by program text.",
+        families: vec![sweep3, sweep5, bnd, seq, cls, conv, rnd, gen5],
+        rule: "cases: (string_sweep, exhaustive) every string of <=3 characters (quick) / <=4 characters (thorough) over {a, é, €, 😀}, each with every index in [-len-2, len+2] and {0.5, -0.5, NaN, +-inf, +-2^63, 2^53, 1e300}, every slice (begin, end) pair in [-len-1, len+1]^2, find with every needle of <=2 characters from every start, replace, split, starts/ends_with with every needle, len/count_chars/classification/to_bytes/to_code_points/iteration/char_byte_index, byte and code-point round trips, wrong kinds and arities; (string_sweep_long) strings of 4-5 characters with strided slices; (boundary_sweep, exhaustive) the same sweep over every string of <=2 (thorough: <=3) code points from the edges of the UTF-8 encoding lengths and the surrogate gap {U+7F, U+80, U+7FF, U+800, U+E01, U+FFF, U+1000, U+D7FF, U+E000, U+FFFF, U+10000, U+10FFFF}; (seq_sweep, exhaustive) vec and tuple indexing, slicing and element assignment for lengths 0-4 (0-6 thorough); (ascii_classification, exhaustive) is_alpha/is_digit/is_hexdigit of every ASCII character alone, doubled and next to a letter and a digit, and of identifier-like and number-like words; (conversions) to_num texts, from_utf8 with truncated/overlong/surrogate sequences, from_ascii, from_code_points; (random_ops) longer strings; (general) expression programs. Oracle: byte-level string model (harness/src/strmodel.rs, no std string searching) inside the reference interpreter; every result or error class printed and compared. Non-trivial: the subject contains a multi-byte character or a conversion is exercised; distinct by program text.",
         nontrivial: nt_c13,
         floors: vec![("ev:err:IndexError", 5_000), ("ev:err:ValueError", 500), ("ev:err:TypeError", 500)],
         assumptions: vec!["from_ascii of 128..191 is not defined by any test and is excluded", "every string yarel prints reaches the harness as a Rust String, i.e. valid UTF-8, or the run panics"],
